@@ -39,6 +39,8 @@ THEOREMS = [
     "Nix.C04.unlink_keeps_target",
     "Nix.C04.role_clear_keeps_target",
     "Nix.C04.history_delete",
+    "Nix.C04.history_frame",
+    "Nix.C04.history_delete_exact",
 ]
 ASSUMPTIONS = [
     "every reference nixio keeps to an entity is an HDF5 hard link (owning container entry, link-list entry, role "
@@ -47,7 +49,9 @@ ASSUMPTIONS = [
     "|nodes|^2+1 entities (the breadth-first id collection of the model is fuel-based; API-built files satisfy it)",
     "frame at full strength (only links to the deleted object disappear) holds only when no other object shares the "
     "entity_id: false after an id-keeping copy (open finding C04-delete-hits-same-id-copy; frame_partial + "
-    "frame_counterexample)",
+    "frame_counterexample); proved at full strength for every history of the model's Op language (which has no "
+    "copy) under the uuid4-freshness proviso of Lemmas/StoreWF (a new entity is never named with an id still to be "
+    "drawn): history_frame, history_delete_exact",
     "that HDF5 frees what became unreachable is not observable through the API and not modelled",
     "uuid4 ids are drawn from an abstract fresh supply",
 ]
